@@ -305,12 +305,12 @@ func (h *Host) ImportWithPowerLoss(site int32, fn func() error) (reached bool, e
 // CheckSnapshotDirsOf opens the NodeHost of a host that is down, applies the directory oracle of
 // C16 (start-up cleanup, then: the recorded snapshot exists, complete and loadable, nothing else
 // is left) to a replica that is not on the restart list, and closes the NodeHost again.
-func (h *Host) CheckSnapshotDirsOf(shardID, replicaID uint64) error {
+func (h *Host) CheckSnapshotDirsOf(shardID, replicaID uint64, ctx string) error {
 	nh, err := dragonboat.NewNodeHost(h.nhConfig())
 	if err != nil {
 		return err
 	}
-	h.checkSnapshotDirs(startRec{shardID: shardID, replicaID: replicaID})
+	h.checkSnapshotDirs(startRec{shardID: shardID, replicaID: replicaID}, ctx)
 	nh.Close()
 	return nil
 }
@@ -816,7 +816,8 @@ func (c *Cluster) Members(n int) map[uint64]dragonboat.Target {
 // (snapshotter.processOrphans, exactly what NodeHost.startShard runs first) and then demands
 // what the property states: only the snapshot recorded in the log store remains, complete and
 // loadable, no temporary / flagged directory is left.
-func (h *Host) checkSnapshotDirs(s startRec) {
+func (h *Host) checkSnapshotDirs(s startRec, ctx ...string) {
+	suffix := strings.Join(ctx, "")
 	if h.inner == nil {
 		return
 	}
@@ -847,7 +848,7 @@ func (h *Host) checkSnapshotDirs(s startRec) {
 	if dir == "" {
 		// the replica never got as far as creating its directory: then no snapshot may be recorded
 		if rec, err := h.inner.GetSnapshot(s.shardID, s.replicaID); err == nil && rec.Index > 0 {
-			h.c.Sink.Violation("C16", "recorded-snapshot-dir-missing", fmt.Sprintf("host %d replica %d: the log store records snapshot %d (%s) but the replica has no snapshot directory at all", h.Index, s.replicaID, rec.Index, rec.Filepath),
+			h.c.Sink.Violation("C16", "recorded-snapshot-dir-missing"+suffix, fmt.Sprintf("host %d replica %d: the log store records snapshot %d (%s) but the replica has no snapshot directory at all", h.Index, s.replicaID, rec.Index, rec.Filepath),
 				map[string]interface{}{"host": h.Index, "shard": s.shardID, "replica": s.replicaID, "recorded": rec.Index, "restarts": h.Restarts})
 		}
 		return
@@ -861,7 +862,10 @@ func (h *Host) checkSnapshotDirs(s startRec) {
 		for k, v := range extra {
 			w[k] = v
 		}
-		sink.Violation("C16", key, fmt.Sprintf("host %d replica %d: %s", h.Index, s.replicaID, what), w)
+		if suffix != "" {
+			w["context"] = suffix
+		}
+		sink.Violation("C16", key+suffix, fmt.Sprintf("host %d replica %d: %s", h.Index, s.replicaID, what), w)
 	}
 	ss := dragonboat.NewVerifSnapshotter(s.shardID, s.replicaID, func(uint64, uint64) string { return dir },
 		h.inner, logdb.NewLogReader(s.shardID, s.replicaID, h.inner), fs)
